@@ -80,7 +80,7 @@ def shards(tier):
 def floors(tier):
     return {"cases": 20000, "insertions": 20000, "insertions_depth2plus": 1000, "would_fail_values": 8000,
             "next_to_ref": 1000, "base_uri_cases": 100, "own_id_next_to_ref": 100, "foreign_sibling_matrix_cases": 50000, "root_ref_cases": 500, "embedded_lookalike_cases": 2000, "empty_or_hash_ref_cases": 1000, "cases_with_errors": 5000, "foreign_names_used": 150,
-            "foreign_id_in_store_document_cases": 100, "check_schema_compared": 5000, "many_foreign_member_cases": 100}
+            "foreign_id_in_store_document_cases": 100, "check_schema_compared": 5000, "many_foreign_member_cases": 100, "module_validate_with_foreign_dollar_schema": 5000}
 
 
 # the member names the PUBLISHED metaschema of each draft says anything about (its `properties`): a keyword outside this
@@ -240,6 +240,31 @@ def compare(ctx, d, S, S2, log, inst, resolver_factory=None, mech=None):
                       "schema already had keep their relative order)" % (f0[3] and f0[3][:4], f1[3] and f1[3][:4]), mech=mech)
     if f0 and f0[0] and any(e[4] for e in f0[0]):
         ctx.count("cases_with_context_errors")
+    # the module-level entry point with this class given explicitly, on a schema whose $schema names ANOTHER draft: the
+    # explicit class decides what is a keyword (same tag in both schemas, so only the insertions differ)
+    if resolver_factory is None and isinstance(S, dict) and isinstance(S2, dict) and "$schema" not in S and ctx.counters.get("cases", 0) % 5 == 1:
+        import jsonschema
+        tag_ = impl.META_ID[[o for o in impl.DRAFTS if o != d][ctx.counters.get("cases", 0) % 3]]
+
+        def mv(schema):
+            try:
+                jsonschema.validate(inst, dict(schema, **{"$schema": tag_}), cls=impl.CLS[d])
+                return ("valid",)
+            except X.SchemaError as e:
+                return ("SchemaError",)
+            except X.ValidationError as e:
+                return ("ValidationError", fp(e, message=False))
+            except (X.RefResolutionError, X.UnknownType) as e:
+                return (type(e).__name__,)
+            except Exception as e:
+                return ("exc:" + type(e).__name__,)
+        m0 = mv(S)
+        if m0[0] in ("valid", "ValidationError"):
+            ctx.count("module_validate_with_foreign_dollar_schema")
+            m1 = mv(S2)
+            if m1 != m0 and m1[0] != "SchemaError":
+                ctx.violation("errors-changed", dict(case, entry="jsonschema.validate(cls=Draft%d..., $schema=%s)" % (d, tag_)),
+                              "module-level validate with the class given explicitly: %r without, %r with the insertions" % (m0, m1), mech=mech)
     # a keyword the draft's metaschema does not mention is no business of check_schema / validate() either
     if log and all(l.get("name") not in MENTIONED[d] and not l.get("next_to_ref") for l in log) and ctx.counters.get("cases", 0) % 4 == 0:
         g0 = gate_of(d, S)
